@@ -55,6 +55,14 @@ Theorem C16_depth_ok_meaning : forall ls d u,
 Proof. exact depth_ok_iff. Qed.
 Print Assumptions C16_depth_ok_meaning.
 
+(* a shape-independent sufficient condition: at most max_level + 1 = 11 distinct names (u included),
+   whatever the graph (cycles, self links, DAGs): the whole bounded-exhaustive universe of the
+   correspondence run lies inside the guard *)
+Theorem C16_small_graph_depth_ok : forall ls d u,
+  List.length (dedup (u :: nodes ls)) <= S max_level -> depth_ok ls d u = true.
+Proof. exact small_graph_depth_ok. Qed.
+Print Assumptions C16_small_graph_depth_ok.
+
 (* beyond the guard the statement is false of the faithful model: chain of 12 edges *)
 Theorem C16_depth_superset_refuted : exists ls u d r,
   depth_ok ls d u = false /\ In r (implicit_roles ls u d) /\ r <> u /\ has_link ls u r d = false.
